@@ -30,10 +30,10 @@ Dicts == {Dc("float", <<>>), Dc("float", <<<<"p", "a">>>>), Dc("float", <<<<"p",
 Full == {NoneE} \cup PyScalars \cup NpScalars \cup Lists \cup Tuples \cup Arrays \cup Dicts
 
 \* representatives of every mechanism for the longer collections
-Mid == {NoneE, Sc("int", "b"), Sc("int", "hi2"), Sc("float", "a"), Sc("float", "nan"), Sc("bool", "a"), Sc("str", "a"),
-        Sc("u8", "lo2"), Sc("i8", "hi2"), Sc("f32", "a"),
+Mid == {NoneE, Sc("int", "b"), Sc("float", "a"), Sc("float", "nan"), Sc("bool", "a"), Sc("str", "a"),
+        Sc("u8", "lo2"), Sc("i8", "hi2"),
         Sq("list", "int", <<2>>, <<"hi2", "b">>), Sq("list", "int", <<1>>, <<"b">>), Sq("list", "float", <<0>>, <<>>),
-        Sq("list", "float", <<2>>, <<"a", "b">>), Sq("list", "float", <<2>>, <<"a", "none">>),
+        Sq("list", "float", <<2>>, <<"a", "none">>),
         Sq("tuple", "int", <<2>>, <<"b", "hi2">>), Sq("nd", "i64", <<2>>, <<"hi2", "b">>), Sq("nd", "f64", <<2>>, <<"a", "nan">>),
         Sq("nd", "u8", <<1>>, <<"lo2">>), Sq("nd", "i64", <<2, 2>>, <<"b", "hi2", "hi2", "b">>),
         Rg("int", <<<<"hi2", "b">>, <<"b">>>>), Dc("float", <<<<"p", "a">>>>), Dc("float", <<<<"p", "a">>, <<"q", "b">>>>)}
@@ -42,14 +42,24 @@ Small == {NoneE, Sc("int", "b"), Sc("float", "a"), Sc("u8", "lo2"), Sc("str", "a
           Sq("nd", "f64", <<2>>, <<"a", "nan">>), Sq("nd", "i64", <<2, 2>>, <<"b", "hi2", "hi2", "b">>),
           Dc("float", <<<<"p", "a">>>>), Dc("float", <<<<"q", "b">>>>)}
 
+\* thorough, three entries: everything except the middle integer widths (i16/i32/u16/u32 behave as i8/u8 in pairs already)
+Large == Full \ ({Sc(k, v) : k \in {"i16", "i32", "u16", "u32"}, v \in {"hi2", "lo2", "b"}}
+                 \cup {Sc("float", "b"), Sc("bool", "b"), Sc("str", "b"), Sc("i64", "b"), Sc("u64", "b"), Sc("i8", "b"),
+                       Sq("list", "int", <<3>>, <<"b", "hi2", "b">>), Sq("nd", "f64", <<3>>, <<"b", "a", "b">>),
+                       Sq("list", "bool", <<2>>, <<"a", "b">>), Sq("nd", "b1", <<2>>, <<"a", "b">>),
+                       Dc("float", <<<<"q", "b">>>>), Dc("int", <<<<"p", "hi2">>>>), Sq("tuple", "int", <<1>>, <<"hi2">>)})
+
 Dom(n) == IF Tier = "quick" THEN (IF n <= 2 THEN Full ELSE IF n = 3 THEN Mid ELSE Small)
-          ELSE (IF n <= 3 THEN Full ELSE Small)
+          ELSE (IF n <= 2 THEN Full ELSE IF n = 3 THEN Large ELSE Small)
 
-InDom(x) == \A i \in Ix(x) : x[i] \in Dom(Len(x))
-Assign(e) == InDom(Append(vals, e)) /\ Len(vals) < MaxN /\ AssignAny(e)
+\* Assign(e) for every e of the domain that belongs to the next collection length (domains shrink with the length)
+Assign == LET n == Len(vals) + 1 IN
+          /\ n <= MaxN /\ phase = "build"
+          /\ \A i \in Ix(vals) : vals[i] \in Dom(n)
+          /\ \E e \in Dom(n) : AssignAny(e)
 
-NextBuild == \E e \in Full : Assign(e)
-Next      == NextBuild \/ WriteStore \/ WriteRefuse \/ Read
+NextBuild == Assign
+Next      == Assign \/ WriteStore \/ WriteRefuse \/ Read
 
 \* one line per collection
 EmitCase == (phase = "build" /\ vals # <<>>) =>
